@@ -62,6 +62,12 @@ def multiply(
     dtype = kwargs.pop("dtype", None)
     if dtype is None:
         dtype = numpy.result_type(x1, x2)
+    else:
+        # numpy's own casting rule decides whether the operands may take the
+        # requested type (raises otherwise)
+        numpy.multiply(
+            numpy.empty(0, dtype=x1.dtype), numpy.empty(0, dtype=x2.dtype), dtype=dtype
+        )
     shape = numpy.broadcast_shapes(x1.shape, x2.shape)
 
     where = numpy.asarray(where)
